@@ -533,8 +533,15 @@ class Engine:
     def cond(self, node, fr):
         """truth value of an expression used as a condition: and/or/not are evaluated on truth values directly"""
         if isinstance(node, ast.BoolOp):
-            ts = [self.cond(v, fr) for v in node.values]
-            return z3.And(*ts) if isinstance(node.op, ast.And) else z3.Or(*ts)
+            ts = []
+            is_and = isinstance(node.op, ast.And)
+            for v in node.values:
+                t = z3.simplify(self.cond(v, fr))
+                ts.append(t)
+                # Python short-circuits: operands after a decided one are not evaluated (they may not even be defined)
+                if (is_and and z3.is_false(t)) or (not is_and and z3.is_true(t)):
+                    break
+            return z3.And(*ts) if is_and else z3.Or(*ts)
         if isinstance(node, ast.UnaryOp) and isinstance(node.op, ast.Not):
             return z3.Not(self.cond(node.operand, fr))
         return self.truth(self.ev(node, fr), fr)
@@ -859,6 +866,10 @@ class Engine:
         return self.index(base, idx, fr, node)
 
     def index(self, base, idx, fr, node=None):
+        if idx.k == "int" and not z3.is_int_value(idx.t):
+            t_ = z3.simplify(idx.t)
+            if z3.is_int_value(t_):
+                idx = mk_int(t_)      # e.g. the literal -1 (unary minus applied to 1)
         if base.k == "tuple" and idx.k == "int" and z3.is_int_value(idx.t):
             i = idx.t.as_long()
             if -len(base.t) <= i < len(base.t):
